@@ -106,7 +106,9 @@ func c11ConcExec(e *c12Env, sc c11ConcScenario, x *explore.Exec, prune bool, see
 		res.pruned = true
 		return res
 	}
-	add := func(key, msg string) { res.violations = append(res.violations, [2]string{"C11/concurrent/" + key, msg}) }
+	add := func(key, msg string) {
+		res.violations = append(res.violations, [2]string{"C11/concurrent/" + key, msg})
+	}
 	switch out.Aborted {
 	case "deadlock":
 		add("deadlock", fmt.Sprintf("no thread enabled, blocked: %v", out.Blocked))
